@@ -12,8 +12,7 @@ print('ext:', common.ensure_ext())
 # 2. regenerate data tables from /repo (translators), then build the Lean library, proofs, drivers
 if [ -x translate/run_all.sh ]; then translate/run_all.sh; fi
 cd lean
-lake build PytypeModel 2>&1 | tail -3
-for f in Driver/C*.lean; do
-  n=$(basename "$f" .lean | tr 'A-Z' 'a-z')
-  lake build "drv_$n" 2>&1 | tail -1
-done
+targets=""
+for f in PytypeModel/Props/C*.lean; do targets="$targets PytypeModel.Props.$(basename "$f" .lean)"; done
+for f in Driver/C*.lean; do targets="$targets drv_$(basename "$f" .lean | tr 'A-Z' 'a-z')"; done
+lake build $targets 2>&1 | tail -5
